@@ -66,11 +66,12 @@ def window_mask(F, S):
                     continue
                 n += 1
                 inst = "%s#%s-store:%s" % (fn.qn, "write-index" if l == wi else l[1], fmt_term(fn.term(nd["id"])))
-                req = "the index stays below the window extent: stored as (…) & %#x" % (ext - 1)
+                req = "the index stays below the window extent: stored as (…) & %#x (or unsigned %% %d)" % (ext - 1, ext)
                 good = False
                 if nd.get("op") == "=":
                     r = fn.term(fn.kids(nd["id"])[1])
-                    good = (r[0] == "op" and r[1] == "&" and ("const", ext - 1) in (r[2], r[3])) or r == ("const", 0)
+                    good = (r[0] == "op" and r[1] == "&" and ("const", ext - 1) in (r[2], r[3])) or r == ("const", 0) or \
+                        (r[0] == "op" and r[1] == "%" and r[3] == ("const", ext) and not fn.n(fn.kids(nd["id"])[1]).get("is", False))
                 if good:
                     out.append(ok("R-CURSOR", inst, fn.loc(nd["id"]), fn.qn, req, fmt_term(fn.term(nd["id"]))))
                 else:
